@@ -176,6 +176,23 @@ class System:
         elif path == 'load':
             sim = {k: [None, v] for k, v in self.inp.items()}
             rel.load_data(sim, 1)
+        elif path == 'mixed-load':
+            # lapse and shift set by hand and frozen, the rest loaded from a
+            # simulation dictionary afterwards
+            for k in ('alpha', 'betaup3'):
+                rel.data[k] = self.inp[k]
+            rel.freeze_data()
+            sim = {k: [None, v] for k, v in self.inp.items()
+                   if k not in ('alpha', 'betaup3')}
+            rel.load_data(sim, 1)
+        elif path == 'reload':
+            # the same instance loaded again after a request (same data)
+            sim = {k: [None, v] for k, v in self.inp.items()}
+            rel.load_data(sim, 1)
+            with gc.quiet():
+                rel['gammadet']
+                rel['Ktrace']
+            rel.load_data(sim, 1)
         elif path in ('touched', 'touched-load'):
             # inputs stored, read back through rel[...] (cache hits leave an
             # access record: typical when one input is built from another),
@@ -349,7 +366,7 @@ def plans(tier):
     thrs = ('always', 'mid', 'mid2', 'never')
     paths = ('freeze', 'load', 'late', 'over_time')
     if tier != 'quick':
-        paths = paths + ('touched', 'touched-load')
+        paths = paths + ('touched', 'touched-load', 'mixed-load', 'reload')
     if tier == 'quick':
         i = 0
         for period in periods:
@@ -366,6 +383,11 @@ def plans(tier):
                  (20, 'always'), (2, 'always')]):
             P.append(((period, thr, imps[j % 4], shapes[1 + j % 3],
                        'touched' if j % 2 == 0 else 'touched-load'),
+                      ALPHABET, 2))
+        for j, (period, thr) in enumerate(
+                [(1, 'always'), (3, 'mid'), (20, 'always'), (2, 'mid2')]):
+            P.append(((period, thr, imps[j % 4], shapes[1 + j % 3],
+                       'mixed-load' if j % 2 == 0 else 'reload'),
                       ALPHABET, 2))
         # a long clean-up period with 32-bit grid sizes (the product
         # period * Nx*Ny*Nz*8 exceeds 2**31)
